@@ -47,6 +47,7 @@ Definition reshape (rows cols : nat) (v : vec) : list vec :=
   map (fun r => slice (r * cols) (r * cols + cols) v) (seq 0 rows).
 Definition flatten (m : list vec) : vec := concat m.
 Definition madd (a b : list vec) : list vec := map (fun ab => vadd (fst ab) (snd ab)) (combine a b).
+Definition msub (a b : list vec) : list vec := map (fun ab => vsub (fst ab) (snd ab)) (combine a b).
 Definition mrow (m : list vec) (i : nat) : vec := nth i m [].
 Definition mtranspose (n : nat) (m : list vec) : list vec :=
   map (fun j => map (fun i => vnth j (mrow m i)) (seq 0 n)) (seq 0 n).
@@ -79,6 +80,8 @@ Definition SIR_homogeneous_meanfield_from_graph (g : graph) (rq : icreq) (sv : s
   Ok (SIR_homogeneous_meanfield (gN g - I0 - R0) I0 R0 sv).
 
 (* =====================  homogeneous pairwise  ===================== *)
+(* the guard of the code is SS0 + 2*SI0 > n*N*(1+1e-12) since fix 45061d2 (a float-rounding allowance); the model keeps the
+   exact comparison SS0 + 2 SI0 > n N - the two differ only inside that relative band of 1e-12 *)
 Definition SIS_homogeneous_pairwise (S0 I0 SI0 SS0 n : Q) (full : bool) (sv : solver) : result output :=
   let N := S0 + I0 in
   if Qltb (n * N) (SS0 + SI0 * 2) then Err EoNError else
@@ -165,17 +168,14 @@ Definition SIS_heterogeneous_pairwise (Sk0 Ik0 : vec) (SkSl0 SkIl0 IkIl0 : list 
   let x := sv (Sk0 ++ flatten SkSl0 ++ flatten SkIl0) in
   let Sk := slc x 0 kcount in
   let Ik := fun t => vsub Nk (Sk t) in
-  (* analytic.py:2934-2938, full data: IkIl = NkNl - SkSl - SkIl - SkIl.T subtracts (kcount,kcount,tcount) arrays from the
-     (kcount,kcount) array NkNl: numpy raises ValueError (shapes do not broadcast) for kcount >= 2 (tcount <> kcount); for
-     kcount = 1 it broadcasts, and SkIl.T reverses all three axes, so the IkIl slot holds a (tcount,1,tcount) array that is
-     not a time series; the model returns the other series and leaves that slot out *)
+  (* analytic.py:2934-2939, full data: IkIl = NkNl[:,:,None] - SkSl - SkIl - SkIl.transpose(1,0,2), per time step,
+     with NkNl = SkSl0 + SkIl0 + IkIl0 + SkIl0.T *)
   if full then
-    if Nat.leb 2 kcount then Err ValueErr
-    else
-      let SkSl := slc x kcount (kcount + kcount * kcount) in
-      let SkIl := sfrom x (kcount + kcount * kcount) in
-      Ok [(nS, Sc (vsumt Sk)); (nI, Sc (vsumt Ik)); (nSk, Ve Sk); (nIk, Ve Ik);
-          (nSkIl, Ma (fun t => reshape kcount kcount (SkIl t))); (nSkSl, Ma (fun t => reshape kcount kcount (SkSl t)))]
+    let NkNl := madd (madd (madd SkSl0 SkIl0) IkIl0) (mtranspose kcount SkIl0) in
+    let SkSl := fun t => reshape kcount kcount (slc x kcount (kcount + kcount * kcount) t) in
+    let SkIl := fun t => reshape kcount kcount (sfrom x (kcount + kcount * kcount) t) in
+    Ok [(nS, Sc (vsumt Sk)); (nI, Sc (vsumt Ik)); (nSk, Ve Sk); (nIk, Ve Ik); (nSkIl, Ma SkIl); (nSkSl, Ma SkSl);
+        (nIkIl, Ma (fun t => msub (msub (msub NkNl (SkSl t)) (SkIl t)) (mtranspose kcount (SkIl t))))]
   else Ok [(nS, Sc (vsumt Sk)); (nI, Sc (vsumt Ik))].
 
 (* analytic.py:3034-3052: X0 packs Sk0, Ik0, SkSl0, SkIl0 and is unpacked in the same order; returned ..., SkIl, SkSl *)
